@@ -111,6 +111,7 @@ Fixed == << [l |-> "tag",       t |-> TagStruct],
             [l |-> "embgen",    t |-> Struct(<<Fld(TRUE, IntT, "", FALSE), Fld(TRUE, Inst(IntT), "", TRUE)>>)],
             [l |-> "embgen",    t |-> Named(TRUE, Struct(<<Fld(TRUE, Ptr(Inst(EB)), "", TRUE), Fld(FALSE, StrT, "", FALSE)>>), "vS")],
             [l |-> "namedfunc", t |-> Named(TRUE, Func(<<>>, <<>>, FALSE), "none")],
+            [l |-> "zerosize",  t |-> Array(2, Struct(<<Fld(TRUE, IntT, "", FALSE), Fld(TRUE, Struct(<<>>), "", FALSE)>>))],
             [l |-> "stringer",  t |-> Ptr(Named(TRUE, Struct(<<Fld(TRUE, IntT, "", FALSE)>>), "pS"))],
             [l |-> "stringer",  t |-> Slice(VI)],
             [l |-> "stringer",  t |-> Struct(<<Fld(FALSE, VI, "", FALSE), Fld(TRUE, VI, "", FALSE)>>)],
